@@ -44,7 +44,10 @@ DateObs(tn, text, probes) ==
 DateCases ==
   {[sd |-> "value", special |-> TRUE, v |-> [k |-> "date", days |-> 16847], obs |-> DateObs("date", "2016-02-16", Probes)],
    [sd |-> "value", special |-> TRUE, v |-> [k |-> "datetime", inst |-> 1455616800, off |-> 3600],
-    obs |-> DateObs("date time", "2016-02-16 11:00:00 +0100", Probes)]}
+    obs |-> DateObs("date time", "2016-02-16 11:00:00 +0100", Probes)]} \cup
+  \* sub-second values: the printed form keeps the fraction through every view and conversion
+  {[sd |-> "value", special |-> TRUE, v |-> [k |-> "datetime", text |-> t], obs |-> DateObs("date time", t, Probes)] :
+     t \in {"2016-02-16 11:00:00.000001 +0100", "2016-02-16 11:00:00.5 +0100", "2016-02-16 11:00:00.000000001 +0000", "2016-02-16 11:00:00.123456789 -0330"}}
 
 VARIABLE c
 Init == c \in {[sd |-> "vals"], [sd |-> "structs"], [sd |-> "ints"]}
